@@ -268,10 +268,12 @@ def fname_inv(s):
     m = re.fullmatch(r"f(\d+)", s)
     if m:
         return int(m.group(1))
-    m = re.fullmatch(r"_C(\d+)(_m\d+|_p\d+)", s)
+    # inverse of fname on ALL of its range: mangled / dunder method names (mname(j), j >= 40) keep their own
+    # leading underscores
+    m = re.fullmatch(r"_C(\d+)(_m\d+|_p\d+|__q\d+|__d\d+__|__init__)", s)
     if m:
         return 2000 + 100 * int(m.group(1)) + mname_inv(m.group(2)[1:] if m.group(2).startswith("_m") else m.group(2))
-    m = re.fullmatch(r"_(m\d+)|(_p\d+)", s)
+    m = re.fullmatch(r"_(m\d+)|(_p\d+|__q\d+|__d\d+__|__init__)", s)
     if m:
         return 1000 + mname_inv(m.group(1) or m.group(2))
     raise Unsupported("function name " + s)
@@ -1204,7 +1206,13 @@ def check(run, mods, wd, rnd) -> dict:
         mods_in += [(m, True) for m in (o_rand_module(rnd) for _ in range(n_rand)) if o_wellformed(m)]
         for mod, seeded in mods_in:
             src, out, q = o_apply(mods, rid, mod)
-            if o_parse(src) != mod:
+            try:
+                back = o_parse(src)
+            except Unsupported:
+                # a generated module outside the grammar the parser supports: skipped and counted, never a crash
+                hist[f"{rid}:unsupported-input"] += 1
+                continue
+            if back != mod:
                 o_problems.append({"rule": site, "source": src, "problem": ["printer/parser round trip"]})
                 continue
             if isinstance(q, tuple):
